@@ -249,7 +249,7 @@ func runProperty(res *Result, prop, tier string, seed uint64, driver, replay str
 		cases = append(cases, pairCases(g)...)
 		cases = append(cases, annotCases(g, n/2)...)
 		cases = append(cases, genCases(g, n/2)...)
-	case "C01", "C02", "C08", "C10":
+	case "C01", "C02", "C08", "C10", "C14":
 		cases = append(cases, pairCases(g)...)
 		cases = append(cases, genCases(g, n)...)
 	case "C13":
